@@ -460,10 +460,10 @@ def general(tier, seed, pid, modes=("debug",)):
     return [(m, corpus(m, pid) + general_cases(tier, seed, m)) for m in modes]
 
 PROPS = {
-    "C01": {"modules": ["MiniVecProof.Props.C01", "MiniVecProof.Props.C01Loops", "MiniVecProof.Props.C12IntoIter", "MiniVecProof.Props.C10DrainFilter"],
+    "C01": {"modules": ["MiniVecProof.Props.C01", "MiniVecProof.Props.C01Loops", "MiniVecProof.Props.C01Ctors", "MiniVecProof.Props.C01Append", "MiniVecProof.Props.C01SplitOff", "MiniVecProof.Props.C12IntoIter", "MiniVecProof.Props.C10DrainFilter", "MiniVecProof.Props.C10Splice"],
             "cases": lambda tier, seed: general(tier, seed, "C01") + [("release", boundary_grid("release"))],
             "owned_oracles": ["O vec-mismatch", "macro-evals", "X signal"], "owned_diffs": ["result", "contents", "panic", "crash"],
-            "partial_missing": ["refinement to Vec semantics proved for every history over push, pop, insert, remove, swap_remove, truncate, clear, retain (any predicate), reserve, reserve_exact, shrink_to, shrink_to_fit (C01_refines_vec_partial); separately proved value-for-value: extend_from_slice, resize, resize_with (any generator) (C01Loops), From<&[T]> (C01_from_slice_partial), clone, extend/collect, dedup*, Drain, IntoIter, DrainFilter (any predicate); append, split_off, drain_vec, splice, extend_from_within, remove_item, the macro forms and the remaining conversions are tied to Vec and to the model by the three-way correspondence only"]},
+            "partial_missing": ["refinement to Vec semantics proved for every history over push, pop, insert, remove, swap_remove, truncate, clear, retain (any predicate), reserve, reserve_exact, shrink_to, shrink_to_fit (C01_refines_vec_partial); separately proved value-for-value: extend_from_slice, resize, resize_with (any generator) (C01Loops), From<&[T]> (C01_from_slice_partial), clone, extend/collect, dedup*, Drain, IntoIter, DrainFilter (any predicate); append, split_off, drain_vec, mini_vec![a, b, c], splice (any replacement iterator); extend_from_within, remove_item, mini_vec![e; n], clone_from and the remaining conversions are tied to Vec and to the model by the three-way correspondence only"]},
     "C02": {"modules": ["MiniVecProof.Props.C02", "MiniVecProof.Props.C10", "MiniVecProof.Props.C10IntoIter", "MiniVecProof.Props.C10DrainFilter"],
             "cases": lambda tier, seed: [(m, c + raw_natural_cases(m)) for m, c in general(tier, seed, "C02")],
             "owned_oracles": ["O ledger", "X signal"], "owned_diffs": ["own", "crash"],
@@ -497,11 +497,11 @@ PROPS = {
         "owned_diffs": ["result", "panic", "alloc", "cap", "crash", "ub"],
         "partial_missing": ["lifting of the generated-code theorems through the hand model for resize / resize_with / mini_vec![x; n] / extend_from_slice is by correspondence only"],
     },
-    "C10": {"modules": ["MiniVecProof.Props.C10", "MiniVecProof.Props.C10IntoIter", "MiniVecProof.Props.C10DrainFilter", "MiniVecProof.Props.C06"],
+    "C10": {"modules": ["MiniVecProof.Props.C10", "MiniVecProof.Props.C10IntoIter", "MiniVecProof.Props.C10DrainFilter", "MiniVecProof.Props.C10Splice", "MiniVecProof.Props.C06"],
             "cases": lambda tier, seed: [("debug", corpus("debug", "C10") + iterator_cases(tier, seed, "debug") + lying_hint_cases("debug")),
                                          ("release", boundary_grid("release"))],
             "owned_oracles": ["O vec-mismatch", "X signal 11"], "owned_diffs": ["result", "contents", "ub", "crash"],
-            "partial_missing": ["proved for Drain on every storage state (C10_drain_partial): every interleaving of front/back steps yields what the list iterator over es[st..en] yields, exact counts, None for ever after the ends meet, vector untouched by steps, and drop leaves prefix ++ suffix destroying exactly the unyielded elements; proved for IntoIter on every storage state (C10_into_iter_partial): same protocol, exact len(), as_slice() = unyielded elements, drop destroys exactly those and frees the block with its layout; proved for DrainFilter with ANY predicate (C10_drain_filter_partial, C10_drain_filter_default): any number of next() calls yields the accepted elements in order, drop leaves exactly the rejected ones; Splice: yielded sequences and counts checked against std's iterators and the model by correspondence only"]},
+            "partial_missing": ["proved for Drain on every storage state (C10_drain_partial): every interleaving of front/back steps yields what the list iterator over es[st..en] yields, exact counts, None for ever after the ends meet, vector untouched by steps, and drop leaves prefix ++ suffix destroying exactly the unyielded elements; proved for IntoIter on every storage state (C10_into_iter_partial): same protocol, exact len(), as_slice() = unyielded elements, drop destroys exactly those and frees the block with its layout; proved for DrainFilter with ANY predicate (C10_drain_filter_partial, C10_drain_filter_default): any number of next() calls yields the accepted elements in order, drop leaves exactly the rejected ones; proved for Splice with ANY replacement iterator (C10_splice_partial, C10_splice_default): steps are those of its embedded Drain, drop leaves prefix ++ (items before the first None) ++ suffix through every path of the drop guard (gap closed, tail moved up after growing); remaining: yielded sequences and counts checked against std's iterators and the model by correspondence only"]},
     "C11": {
         "modules": ["MiniVecProof.Props.C11"],
         "cases": lambda tier, seed: [("debug", corpus("debug", "C11") + argument_grid("debug")), ("release", argument_grid("release"))] if tier == "thorough"
@@ -516,11 +516,11 @@ PROPS = {
     "C14": {"modules": ["MiniVecProof.Props.C14"],
             "cases": lambda tier, seed: [("debug", corpus("debug", "C14") + raw_cases(tier, seed, "debug")), ("release", raw_cases(tier, seed, "release"))],
             "owned_oracles": ["O rawparts", "O cap", "O ledger", "X signal", "O vec-mismatch", "rawparts-null", "O alloc"], "owned_diffs": ["ub", "result", "contents", "crash", "panic"]},
-    "C17": {"modules": ["MiniVecProof.Props.C17", "MiniVecProof.Props.C10DrainFilter", "MiniVecProof.Props.C01Loops"],
+    "C17": {"modules": ["MiniVecProof.Props.C17", "MiniVecProof.Props.C10DrainFilter", "MiniVecProof.Props.C10Splice", "MiniVecProof.Props.C01Loops"],
             "cases": lambda tier, seed: [("debug", corpus("debug", "C17") + hostile_cases(tier, seed, "debug") + huge_hint_cases("debug") + extend_ref_cases("debug")),
                                          ("release", huge_hint_cases("release") + extend_ref_cases("release"))],
             "owned_oracles": ["O ledger", "O alloc", "X signal 11"], "owned_diffs": ["own", "contents", "result", "alloc", "ub", "crash"],
-            "partial_missing": ["proved: retain under an ARBITRARY (stateful, inconsistent) non-panicking predicate keeps a sublist of live elements, destroys exactly the others once, no allocator traffic (C17_retain_partial, C17_live_distinct); dedup / dedup_by / dedup_by_key under an arbitrary equality script, predicate or key function (C17_dedup_partial); extend / collect with an arbitrary (non-fused) source iterator (C17_extend_partial, C17_collect_partial); clone under an arbitrary Clone (C12_clone_partial); drain_filter with ANY predicate (C10_drain_filter_partial), resize_with with ANY generator (C17_resize_with_partial); splice with non-fused or lying iterators, remove_item, comparisons: scripted callbacks enumerated exhaustively up to length 4 (quick) / 6 (thorough) by the correspondence only"]},
+            "partial_missing": ["proved: retain under an ARBITRARY (stateful, inconsistent) non-panicking predicate keeps a sublist of live elements, destroys exactly the others once, no allocator traffic (C17_retain_partial, C17_live_distinct); dedup / dedup_by / dedup_by_key under an arbitrary equality script, predicate or key function (C17_dedup_partial); extend / collect with an arbitrary (non-fused) source iterator (C17_extend_partial, C17_collect_partial); clone under an arbitrary Clone (C12_clone_partial); drain_filter with ANY predicate (C10_drain_filter_partial), resize_with with ANY generator (C17_resize_with_partial); splice with ANY replacement iterator incl. non-fused (C10_splice_partial); remove_item, comparisons: scripted callbacks enumerated exhaustively up to length 4 (quick) / 6 (thorough) by the correspondence only"]},
     "C19": {"modules": ["MiniVecProof.Props.C19", "MiniVecProof.Props.C19Mem"],
             "cases": lambda tier, seed: [("debug", serde_cases(tier, seed, "debug")), ("release", serde_cases(tier, seed, "release"))] if tier == "thorough"
                      else [("debug", serde_cases(tier, seed, "debug"))],
